@@ -11,6 +11,7 @@ import (
 	"os/signal"
 	"runtime"
 	"sync"
+	"sync/atomic"
 	"syscall"
 	"time"
 
@@ -20,11 +21,15 @@ import (
 
 var signalWarmOnce sync.Once
 
+// signalAck: the harness's own handler channel: every SIGINT / SIGTERM the process gets arrives here too, which tells
+// the sender that the runtime has handed the signal to the registered channels
+var signalAck = make(chan os.Signal, 16)
+
 // signalWarm registers a handler of the harness's own for SIGINT / SIGTERM once per process: the runtime's signal
 // goroutine is started, and from now on neither signal can kill the worker, whenever it arrives.
 func signalWarm() {
 	signalWarmOnce.Do(func() {
-		signal.Notify(make(chan os.Signal, 1), syscall.SIGINT, syscall.SIGTERM)
+		signal.Notify(signalAck, syscall.SIGINT, syscall.SIGTERM)
 		time.Sleep(time.Millisecond)
 	})
 }
@@ -36,6 +41,9 @@ type cliState struct {
 	done    bool
 	gone    chan struct{}
 	sigOnce sync.Once
+
+	sendStarted atomic.Bool
+	sendDone    chan struct{}
 }
 
 func (c *cliState) add(ev string) {
@@ -77,7 +85,28 @@ func (c *cliState) returned() {
 // sendSignal: the process interrupts itself.  Never before awaitPandoraTermination has registered its handler
 // (signal.Notify precedes its first select), or the signal would kill the worker.
 func (c *cliState) sendSignal(h *hookRt, kind string) {
-	c.sigOnce.Do(func() { c.sendSignal1(h, kind) })
+	c.sigOnce.Do(func() {
+		c.sendStarted.Store(true)
+		defer close(c.sendDone)
+		c.sendSignal1(h, kind)
+	})
+}
+
+// quiesce: the case is over; a signal that is being sent right now (the fallback timer had fired) must be through
+// before the next case registers its handler
+func (c *cliState) quiesce(timerStopped bool) {
+	if !timerStopped {
+		for i := 0; i < 1000 && !c.sendStarted.Load(); i++ {
+			time.Sleep(100 * time.Microsecond)
+		}
+	}
+	if c.sendStarted.Load() {
+		select {
+		case <-c.sendDone:
+		case <-time.After(3 * time.Second):
+		}
+	}
+	signalDrain()
 }
 
 func (c *cliState) sendSignal1(h *hookRt, kind string) {
@@ -95,10 +124,16 @@ func (c *cliState) sendSignal1(h *hookRt, kind string) {
 	if kind == "term" {
 		sg = syscall.SIGTERM
 	}
+	signalDrain()
 	_ = syscall.Kill(os.Getpid(), sg)
-	// the signal reaches the channel through the runtime's signal goroutine: give it a moment, so that a case that
-	// signals at a point of the engine has the signal pending when the engine goes on
-	time.Sleep(2 * time.Millisecond)
+	// the signal reaches the channels through the runtime's signal goroutine: wait until it has (the harness's own
+	// channel got it), so that a case that signals at a point of the engine has the signal pending when the engine goes
+	// on, and no case ends with a signal still on its way (the next case would get it)
+	select {
+	case <-signalAck:
+	case <-time.After(2 * time.Second):
+	}
+	time.Sleep(time.Millisecond)
 }
 
 // cliFatalHook: zap's hook for Fatal entries: instead of os.Exit(1) it records the exit, probes whether Engine.Wait
@@ -118,4 +153,14 @@ func (h cliFatalHook) OnWrite(*zapcore.CheckedEntry, []zapcore.Field) {
 		h.cs.add("fatal.w0")
 	}
 	runtime.Goexit()
+}
+
+func signalDrain() {
+	for {
+		select {
+		case <-signalAck:
+		default:
+			return
+		}
+	}
 }
